@@ -35,6 +35,19 @@ CHECKS = {
         technique="TLA+ syntax spec + TLC exhaustive domain enumeration, behaviour replay, TLC trace validation",
         design_ref="DESIGN.md section 5 C18",
     ),
+    "C14": dict(
+        level="model_checking",
+        text=("AnnexB.tla defines the byte-by-byte start-code scan, the NAL unit sequence and what every helper must answer "
+              "from that sequence (Prop), plus an Impl model of the word-at-a-time scanner parameterised by word size. TLC "
+              "proves Impl = reference scan for ALL streams over {00,01,other} up to the bound at word size 4, enumerates every "
+              "window at every alignment for the real 8-byte word and structured AVC/HEVC unit streams; each is replayed into "
+              "the real scanner (hook), converters and all helpers, and long random streams are validated as traces by "
+              "AnnexBTrace.tla."),
+        note=("Trusted: TLC, Go replayer incl. its own length-prefix walker. Byte values matter only through classes {00,01,other} "
+              "(seeded concretisation of 'other'). NAL units >= 64 KiB not generated."),
+        technique="TLA+ spec + TLC exhaustive enumeration, behaviour replay into real code, TLC trace validation",
+        design_ref="DESIGN.md section 5 C14",
+    ),
 }
 
 PENDING_REASON = "check not built yet in this revision (planned in DESIGN.md section 5); not claimed until its machinery exists"
